@@ -6,11 +6,11 @@ package vboth
 import (
 	"context"
 
-	awsv1 "github.com/aws/aws-sdk-go/aws"
-	ddbv1 "github.com/aws/aws-sdk-go/service/dynamodb"
 	awsv2 "github.com/aws/aws-sdk-go-v2/aws"
 	ddbv2 "github.com/aws/aws-sdk-go-v2/service/dynamodb"
 	typesv2 "github.com/aws/aws-sdk-go-v2/service/dynamodb/types"
+	awsv1 "github.com/aws/aws-sdk-go/aws"
+	ddbv1 "github.com/aws/aws-sdk-go/service/dynamodb"
 	c1 "github.com/truora/minidyn/aws-v1/client"
 	c2 "github.com/truora/minidyn/aws-v2/client"
 	"github.com/truora/minidyn/internal/nd"
